@@ -184,6 +184,11 @@ class Shard:
             return self._maybe_restart(True)
         if inf:
             m = re.search(r"VERIF-FATAL ([^\n]*)", tail)
+            if not m and crash_owner(self.logtail(400000)) == "harness":
+                # the panic is in harness code: an infrastructure failure, never a verdict
+                self.synthetic.append({"t": "X", "why": "HARNESS PANIC in case %s/%s (not a property verdict)" % (inf[0]["family"], inf[0]["idx"]), "tail": tail[-6000:]})
+                self.done = True
+                return True
             for r in inf:
                 why = ("harness-detected fatal condition: " + m.group(1)) if m else \
                     "process died (exit %d) while this case was running: corebgp panicked or crashed" % rc
@@ -207,6 +212,28 @@ class Shard:
 
     def records(self):
         return read_jsonl(self.out) + self.synthetic
+
+
+def crash_owner(text):
+    """'corebgp' when the panicking goroutine's innermost non-runtime frame is in corebgp, 'harness' when it is in verif/"""
+    i = text.find("\npanic:")
+    if i < 0:
+        i = text.find("panic:")
+    if i < 0:
+        i = text.find("fatal error:")
+    if i < 0:
+        return "unknown"
+    j = text.find("goroutine ", i)
+    if j < 0:
+        return "unknown"
+    blk = text[j:].split("\n\n")[0]
+    for line in blk.splitlines():
+        line = line.strip()
+        if line.startswith("github.com/jwhited/corebgp."):
+            return "corebgp"
+        if line.startswith("verif/"):
+            return "harness"
+    return "unknown"
 
 
 RACE_SPLIT = re.compile(r"^==================\s*$", re.M)
